@@ -36,7 +36,8 @@ THEOREMS = [
     # Name.py wire-level functions TRANSLATED from their source text on every run (-> lean/NdnGen/NameGen.lean: reduce =
     # fold, for = Py.forEach, while = recursion on fuel) = the model functions (Ndn.Name.*), for all inputs
     'Ndn.NameGen.all_translated', 'Ndn.NameGen.encoded_length_eq', 'Ndn.NameGen.is_prefix_core_eq',
-    'Ndn.NameGen.encode_eq',
+    'Ndn.NameGen.encode_eq', 'Ndn.NameGen.decode_eq', 'Ndn.NameGen.decode_error_class', 'Ndn.NameGen.decode_fuel_suffices',
+    'Ndn.NameGen.decode_error_of_model', 'Ndn.NameGen.decode_ok_model',
 ]
 PARTIAL = {}
 TRUSTED = [
